@@ -40,6 +40,20 @@ CHECKS = {
   note="GDAL validity rules R1 (average) / R2 (centre rule for up-sampling) are modelled and measured; no-gap tiling is C06's; "
        "re-masking after rounding is C13's. The converse is proved per pixel from explicit premises, not as one end-to-end theorem.",
   tech="Lean 4 proof (order/field facts over Q, list induction) + differential mask comparison on real fusions", ref='7 C03'),
+ 'C04': dict(
+  text="Proof (Lean 4) on the block fan-out machine (4 locks, per-block straight-line program, any number of threads, any "
+       "scheduler): interim set - locks are never nested, every io step is bracketed by acq/rel of its own resource (both program "
+       "variants), single-write semantics; the full set (lock invariant over all schedules, mutual exclusion, progress, "
+       "termination, job accounting, order- and schedule-independence of disjoint writes) is stated in DESIGN.md and in "
+       "progress. Tied to the code by running the real RasterFuse.process under a controlled scheduler that replaces the executor, "
+       "the four locks and the four datasets from outside: 30 (quick) / 1800 (thorough) seeded schedules (random, stall-first, "
+       "round-robin, starve, sticky, switch; 2-4 workers); every observed trace is replayed and accepted by the Lean machine, no "
+       "dataset call happens without its lock, outputs (pixels, masks, tags, descriptions; NaN and internal-mask outputs with "
+       "band-specific masks) are bit-identical to the single-threaded run; free-running 1/2/4/16 threads; compare/stats likewise.",
+  note="Races inside GDAL below the proxies, the GIL and memory visibility are outside the model. The controller serialises "
+       "worker threads, so only interleavings at yield points (lock acquire/release, first dataset access, fit, apply, job end) are "
+       "explored - which is all that matters when every shared access is under a lock, and that premise is checked per access.",
+  tech="Lean 4 proof about a scheduler state machine + trace validation of real threads under a controlled scheduler", ref='7 C04'),
  'C05': dict(
   text="Proof (Lean 4): overlap_for_kernel = ceil(k/2) = radius + 1; the kernel window of every pixel within one pixel of a "
        "block's output window lies inside its input window (all A, B, s, v >= k/2+1); the fit at a pixel of a sub-block that "
@@ -86,6 +100,18 @@ CHECKS = {
   note="How GDAL exposes masks (alpha honoured only for 1/3-band Byte/UInt16 + alpha) is GDAL's rule; WarpedVRT mask handling "
        "is not modelled.",
   tech="Lean 4 proof (case analysis, list congruence) + bit-identity differential runs across encodings", ref='7 C08'),
+ 'C09': dict(
+  text="Proof (Lean 4) on the same machine with fault plans: a failed job makes the caller's outcome `raised` (fail_loud), ok "
+       "implies no failure, a faulting io step releases its lock and ends the job failed, CLI exit status 0 iff nothing raised "
+       "(4 theorems, interim; the reachable-state theorems are part of C04's full set). Tied to the code by fault enumeration through "
+       "the interposed datasets/model hooks: every (site in source read, reference read, fit, apply, corrected write, parameter "
+       "write) x block x threads 1/2/4 (exhaustive in the thorough tier, a seeded third in the quick tier): the API raises, "
+       "terminates within a watchdog, all four datasets closed, all locks free, reader reusable with the reference result; "
+       "multi-thread traces replayed by the Lean machine with the same fault plan (outcome raised, locks free, all other blocks "
+       "complete); CLI exit codes; compare and stats analogues.",
+  note="Faults inside GDAL that do not surface as Python exceptions are outside. The watchdog bound (60 s) stands for liveness.",
+  tech="Lean 4 proof about the machine under fault plans + exhaustive single-fault enumeration on the real code",
+  ref='7 C09', category='proof'),
  'C10': dict(
   text="Proof (Lean 4) over a file-system machine (finite map path -> content; process = both existence checks, then both opens "
        "for writing, then content that depends on inputs+configuration only): without overwrite an existing output means "
@@ -197,7 +223,7 @@ m = dict(
                kind_free_text='Python differential harness calling the real homonim code in-process')],
  checks=[dict(property_id=p, quick_cmd=f'./check {p} --tier quick', thorough_cmd=f'./check {p} --tier thorough',
               evidence_file=f'evidence/{p}.json', replay_cmd_template=f'./check {p} --replay {{path}}', engine='lean-model',
-              level_claimed=dict(category='proof', text=c['text'], design_ref=c['ref']), level_note=c['note'],
+              level_claimed=dict(category=c.get('category', 'proof'), text=c['text'], design_ref=c['ref']), level_note=c['note'],
               technique=c['tech']) for p, c in sorted(CHECKS.items())],
  notes='See DESIGN.md. Exit 2 of a check means the harness itself failed or timed out (not a verdict).',
  not_applicable=[dict(property_id=p, reason=NA_REASON) for p in props if p not in CHECKS],
